@@ -323,12 +323,15 @@ def vm(field: str) -> int:
     return 0
 
 
-def reset_peak() -> None:
+def reset_peak() -> bool:
+    """Reset the resident-memory high-water mark of this process; False where the kernel interface is not writable
+    (then the mark of an earlier input would be charged to the later ones: the child handles one input only)."""
     try:
         with open("/proc/self/clear_refs", "w") as fh:
             fh.write("5")
     except OSError:
-        pass
+        return False
+    return True
 
 
 def parse_one(rec, data: bytes):
@@ -379,7 +382,7 @@ def child_main(inputs, start, wfd):
         data = build_input(rec)
         gc.collect()
         os.write(wfd, f"S {i} {len(data)}\n".encode())
-        reset_peak()
+        can_reset = reset_peak()
         before = vm("VmRSS")
         # CPU time of this child, not wall time: the parse neither sleeps nor waits, and CPU time does not
         # depend on how busy the machine is (the wall-clock watchdog of the parent stays)
@@ -390,6 +393,8 @@ def child_main(inputs, start, wfd):
         growth = max(0, peak - before)
         detail = (detail or "-").replace(" ", "_").replace("\n", "_")[:120]
         os.write(wfd, f"R {i} {outcome} {detail} {n} {reads} {growth} {dt:.4f}\n".encode())
+        if not can_reset:
+            os._exit(0)         # a fresh child (fresh high-water mark) for the next input
     os._exit(0)
 
 
@@ -473,7 +478,13 @@ def run_batch(inputs, sim, breaker=True):
         elif abnormal or hung:
             raise HarnessError(f"child ended abnormally outside an input (status {status}, hung={hung})")
         else:
-            break
+            # normal exit: all done, or a one-input child (no high-water-mark reset on this kernel) - go on
+            nxt = next((i for i in range(start, len(inputs)) if i not in results), None)
+            if nxt is None:
+                break
+            if nxt == start and start in results:
+                raise HarnessError("child exited without making progress")
+            start = nxt
     return results
 
 
